@@ -146,7 +146,8 @@ def classify_ll(ev):
 def run(pid, tier):
     ctx = check.Ctx(pid, tier)
     thorough = tier == "thorough"
-    rng = random.Random(ctx.seed * 7919 + hash(pid) % 1000)
+    import zlib
+    rng = random.Random(ctx.seed * 7919 + zlib.crc32(pid.encode()) % 1000)
     try:
         exe = build.build("asan")
     except build.BuildError as ex:
@@ -166,7 +167,16 @@ def run(pid, tier):
             r = tlc.run("NodeFlowMC.tla", qcfg, workers=8, timeout=300, extra_files={qcfg: nf_cfg([q], "MC_AddrsSmall", 3, 2, 2, 1)})
             ctx.add_tlc("NodeFlowMC/" + qcfg, r, note="quirk model must violate " + inv); tlc.cleanup(r)
             if r.violation != inv: ctx.infra_fail("quirk %s did not produce the expected counterexample (%s)" % (q, r.violation))
-    else:
+    mc_cases = []
+    if pid == "C18":
+        r = tlc.run("LowLevelMC.tla", "LowLevelMC.cfg", workers=1, timeout=900)
+        cs = re.findall(r'"CASE", "(.*)"', r.out)
+        mc_cases = [json.loads(x.replace('\\"', '"')) for x in cs]
+        ctx.add_tlc("LowLevelMC (case analysis: %d boundary cases, consistency ASSUMEs)" % len(mc_cases), r); tlc.cleanup(r)
+        ctx.cov["states"] += len(mc_cases); ctx.cov["transitions"] += len(mc_cases)
+        ctx.cov["model_cases"] = len(mc_cases)
+        if r.error or not mc_cases: ctx.infra_fail("LowLevelMC: " + (r.error or "no cases")[:800])
+    if pid in ("C01", "C18"):
         r = tlc.run("BytesMC.tla", "BytesMC.cfg", workers=4, timeout=600)
         ctx.add_tlc("BytesMC", r, note="framing operators: ASSUMEs over the escape alphabet"); tlc.cleanup(r)
         if r.error: ctx.infra_fail("BytesMC: " + r.error[:600])
@@ -178,6 +188,16 @@ def run(pid, tier):
         hs = sim_histories(ctx, 400 if thorough else 40, 14, ctx.seed)
         for i, h in enumerate(hs): scripts.append(script_from_hist("sim%d" % i, h))
         ctx.cov["tlc_behaviours_replayed"] = len(hs)
+    if mc_cases:
+        # one implementation test per model case: call, flush (observe 0 or 1 message), let the budget expire
+        step = 1 if thorough else 1
+        for ci in range(0, len(mc_cases), 150):
+            sc = drv.Script("mc%d" % (ci // 150)); g.session_start(sc)
+            for c in mc_cases[ci:ci + 150]:
+                line, ev = g.ll_line(c["fn"], c["na"], c["args"]); sc.add(line, ev)
+                sc.add("flush", {"e": "flush"}); sc.add("tick 2", {"e": "tick", "d": 2})
+                ctx.distinct(("case", c["fn"], c["acc"], tuple(c["na"]), json.dumps(c["args"])))
+            sc.add("stop"); scripts.append(sc)
     tb = drv.run(exe, [scripts[0]])["tables"]
     respinfo = tb.out.get(0, [{}])[0].get("respinfo")
     nrand = {"C03": (40, 400), "C04": (40, 400), "C01": (40, 400), "C18": (40, 300)}[pid][1 if thorough else 0]
